@@ -31,6 +31,9 @@ def run(ctx):
     # lifetimes as GDB mode sees them (closures; sent messages name their target by id only)
     from props import gdbbase
     gdbbase.gdb_batch(ctx, rep, relevant('C03'), ctx.pick(50, 500), 1000381, cmd_rate=0.0, destroy_rate=0.02, init_break=0.0)
+    # ... and as a real process (file / run mode), compared with the in-process run
+    from props import sessbase as _sb
+    _sb.process_batch(ctx, rep, ['msg'], ctx.pick(10, 100), 1000453, cmds_after=2)
     return rep
 
 
